@@ -286,10 +286,10 @@ static int run_dec(char *sv,char *res,size_t cap){
 
 /* ------------------------------------------------------------------ vorbisfile cases */
 typedef struct { char path[400]; unsigned char *data; long len; } fcache;
-static fcache g_fc[128]; static int g_nfc=0;
+static fcache g_fc[2048]; static int g_nfc=0;
 static fcache *get_file(const char *path){
   int i; for(i=0;i<g_nfc;i++)if(!strcmp(g_fc[i].path,path))return &g_fc[i];
-  if(g_nfc>=128){ fprintf(stderr,"too many files\n"); exit(2); }
+  if(g_nfc>=2048){ fprintf(stderr,"too many files\n"); exit(2); }
   strcpy(g_fc[g_nfc].path,path); g_fc[g_nfc].data=load_file(path,&g_fc[g_nfc].len);
   return &g_fc[g_nfc++];
 }
